@@ -24,7 +24,7 @@ func c09Concurrent(r *mon.Run) error {
 		return err
 	}
 	defer c.close()
-	rounds := r.Pick(60, 400)
+	rounds := r.Pick(400, 3000)
 	rng := r.RNG(0x09C0)
 	clients := []*rhplab.Client{c.lab.Mux.NewClient(), c.lab.Mux.NewClient()}
 	type op struct {
